@@ -7,6 +7,7 @@ package main
 
 import (
 	"bytes"
+	"crypto/tls"
 	"encoding/hex"
 	"fmt"
 	"io"
@@ -44,6 +45,13 @@ type c12Req struct {
 	// server's implicit 200); 2 = writes 202 + body through the raw c.Response().Writer; 3 = WriteHeader(203)
 	// on c.Response().Unwrap(); 4 = c.NoContent(204); 5 = returns an echo.HTTPError 418
 	H int `json:"h,omitempty"`
+	// ambient facts about the connection (none of them is a lookup location, none reaches the model):
+	// Host = Request.Host ("" = httptest's example.com); Remote = Request.RemoteAddr ("" = 192.0.2.1:1234);
+	// TLS = the request arrived over TLS (Request.TLS set); Proto = "HTTP/1.0" / "HTTP/2.0" ("" = HTTP/1.1)
+	Host   string `json:"host,omitempty"`
+	Remote string `json:"remote,omitempty"`
+	TLS    bool   `json:"tls,omitempty"`
+	Proto  string `json:"proto,omitempty"`
 }
 
 type c12Case struct {
@@ -295,6 +303,21 @@ func c12Build(c *c12Case, rq *c12Req) c12Built {
 	}
 	for _, ck := range rq.Cookies {
 		req.AddCookie(&http.Cookie{Name: ck[0], Value: ck[1]})
+	}
+	if rq.Host != "" {
+		req.Host = rq.Host
+	}
+	if rq.Remote != "" {
+		req.RemoteAddr = rq.Remote
+	}
+	if rq.TLS {
+		req.TLS = &tls.ConnectionState{Version: tls.VersionTLS13, HandshakeComplete: true, ServerName: req.Host}
+	}
+	switch rq.Proto {
+	case "HTTP/1.0":
+		req.Proto, req.ProtoMajor, req.ProtoMinor = "HTTP/1.0", 1, 0
+	case "HTTP/2.0":
+		req.Proto, req.ProtoMajor, req.ProtoMinor = "HTTP/2.0", 2, 0
 	}
 	return c12Built{req: req, cookies: req.Cookies(), params: params}
 }
@@ -1861,7 +1884,142 @@ func c12Gen(r *rand.Rand, tier string) []any {
 	for i := 0; i < ncross; i++ {
 		out = append(out, c12GenCrossKind(r))
 	}
+	// round 8, drawn after everything else (the cases above keep their shape for a given seed): a third of all
+	// requests additionally carry 1-3 ambient facts that say something about where the request comes from
+	// or what kind of client sent it.  None of them is a configured lookup location, so none of them may change
+	// what the CSRF instances decide.
+	for _, ci := range out {
+		c := ci.(*c12Case)
+		if c.Conc > 0 {
+			continue
+		}
+		for j := range c.Reqs {
+			if r.Intn(3) == 0 {
+				c12Ambient(r, c, &c.Reqs[j])
+			}
+		}
+	}
 	return out
+}
+
+// c12AmbientHeaders: request headers with well-known values by which a browser, a proxy, a framework or a client
+// library describes the request: fetch metadata, origin, AJAX markers, content negotiation, credentials of
+// another scheme, forwarding, method override, protocol upgrade, prefetch, explicit opt-outs of other frameworks
+var c12AmbientHeaders = [][]string{
+	{"Sec-Fetch-Site", "same-origin", "same-origin", "same-site", "none", "cross-site", "Same-Origin", "same-origin, cross-site"},
+	{"Sec-Fetch-Mode", "navigate", "cors", "same-origin", "no-cors", "websocket"},
+	{"Sec-Fetch-Dest", "document", "empty", "iframe"},
+	{"Sec-Fetch-User", "?1"},
+	{"Origin", "http://example.com", "https://example.com", "null", "http://localhost", "http://evil.example", "http://example.com:80"},
+	{"Referer", "http://example.com/form", "https://example.com/", "http://localhost/", "http://evil.example/example.com"},
+	{"X-Requested-With", "XMLHttpRequest", "fetch", "xmlhttprequest"},
+	{"Accept", "application/json", "text/html", "*/*"},
+	{"Authorization", "Bearer abc.def.ghi", "Basic dXNlcjpwYXNz", "Token t0k3n"},
+	{"X-Api-Key", "k-1234567890"},
+	{"X-Forwarded-For", "127.0.0.1", "::1", "10.0.0.1, 127.0.0.1"},
+	{"X-Real-Ip", "127.0.0.1", "::1"},
+	{"X-Forwarded-Proto", "https", "http"},
+	{"X-Forwarded-Host", "example.com", "localhost"},
+	{"Forwarded", "for=127.0.0.1;proto=https;host=example.com"},
+	{"X-Http-Method-Override", "GET", "HEAD", "OPTIONS", "get"},
+	{"X-Method-Override", "GET"},
+	{"X-Http-Method", "GET"},
+	{"Upgrade", "websocket", "h2c"},
+	{"Connection", "Upgrade", "close", "keep-alive"},
+	{"User-Agent", "curl/8.5.0", "Go-http-client/1.1", "kube-probe/1.29", "Mozilla/5.0 (X11; Linux x86_64)", "GoogleHC/1.0", ""},
+	{"Purpose", "prefetch"},
+	{"Sec-Purpose", "prefetch;prerender"},
+	{"Access-Control-Request-Method", "POST", "GET"},
+	{"Csrf-Token", "nocheck"},
+	{"X-Csrf-Exempt", "1", "true"},
+	{"X-No-Csrf", "1"},
+	{"X-Internal-Request", "1", "true"},
+	{"X-Debug", "1"},
+	{"Cache-Control", "no-cache", "max-age=0"},
+	{"If-None-Match", "*"},
+	{"Expect", "100-continue"},
+	{"Te", "trailers"},
+	{"Dnt", "1"},
+	{"Sec-Gpc", "1"},
+}
+
+// c12Ambient adds 1-3 ambient facts to a request (see c12Gen).  Content-Type is only touched when the request has
+// no body of its own (the body's own type decides what net/http parses); X-Request-Id and X-Skip are left alone
+// (RequestID() and the configured Skipper read them).
+func c12Ambient(r *rand.Rand, c *c12Case, rq *c12Req) {
+	if !c12IsSafe(rq.Method) && r.Intn(4) == 0 {
+		// a method override towards a safe method (header, query or body style): the request's method stays what it is
+		m := []string{"GET", "HEAD", "OPTIONS", "TRACE", "get"}[r.Intn(5)]
+		switch r.Intn(5) {
+		case 0:
+			rq.Query = append(rq.Query, [2]string{"_method", m})
+		case 1:
+			if len(rq.Form) > 0 {
+				rq.Form = append(rq.Form, [2]string{"_method", m})
+			}
+		default:
+			rq.Headers = append(rq.Headers, [2]string{[]string{"X-HTTP-Method-Override", "X-Method-Override", "X-HTTP-Method"}[r.Intn(3)], m})
+		}
+	}
+	for k, n := 0, 1+r.Intn(3); k < n; k++ {
+		switch x := r.Intn(20); {
+		case x < 3:
+			// the coherent picture a browser gives of a same-origin request (scheme and host as the request has them)
+			scheme, host := "http", c12Eff(rq.Host, "example.com")
+			if rq.TLS || r.Intn(3) == 0 {
+				rq.TLS = true
+				scheme = "https"
+			}
+			for _, h := range [][2]string{{"Origin", scheme + "://" + host}, {"Referer", scheme + "://" + host + []string{"/", "/form", "/p/x?y=1"}[r.Intn(3)]},
+				{"Sec-Fetch-Site", "same-origin"}, {"Sec-Fetch-Mode", []string{"navigate", "cors", "same-origin"}[r.Intn(3)]}, {"Sec-Fetch-Dest", "document"}} {
+				if r.Intn(3) != 0 {
+					rq.Headers = append(rq.Headers, h)
+				}
+			}
+		case x < 12:
+			h := c12AmbientHeaders[r.Intn(len(c12AmbientHeaders))]
+			if x < 5 {
+				h = c12AmbientHeaders[r.Intn(8)] // what a browser says about the origin, most often
+			}
+			name := h[0]
+			if r.Intn(6) == 0 {
+				name = strings.ToLower(name)
+			}
+			rq.Headers = append(rq.Headers, [2]string{name, h[1+r.Intn(len(h)-1)]})
+		case x == 12:
+			if len(rq.Form) == 0 && !rq.Multipart {
+				rq.Headers = append(rq.Headers, [2]string{"Content-Type", []string{"application/json", "application/json; charset=utf-8", "text/plain", "application/octet-stream", "application/x-www-form-urlencoded"}[r.Intn(5)]})
+			}
+		case x == 13:
+			q := [][2]string{{"_method", "GET"}, {"_method", "HEAD"}, {"method", "get"}, {"csrf_exempt", "1"}, {"nocheck", "true"}, {"debug", "1"}, {"format", "json"}, {"callback", "cb"}}
+			rq.Query = append(rq.Query, q[r.Intn(len(q))])
+		case x == 14:
+			if len(rq.Form) > 0 {
+				f := [][2]string{{"_method", "GET"}, {"_method", "PUT"}, {"csrf_exempt", "1"}, {"_csrf_skip", "1"}}
+				rq.Form = append(rq.Form, f[r.Intn(len(f))])
+			}
+		case x == 15:
+			ck := [][2]string{{"csrf_exempt", "1"}, {"session", "s3ss10n"}, {"logged_in", "yes"}, {"remember_me", "1"}, {"debug", "1"}}
+			n := ck[r.Intn(len(ck))]
+			if !c12IsInstCookie(c, n[0]) {
+				rq.Cookies = append(rq.Cookies, n)
+			}
+		case x == 16:
+			rq.Host = []string{"localhost", "127.0.0.1", "localhost:8080", "[::1]:8080", "example.com:443", "EXAMPLE.COM", "internal"}[r.Intn(7)]
+			if r.Intn(2) == 0 {
+				rq.Headers = append(rq.Headers, [2]string{"Origin", "http://" + rq.Host})
+			}
+		case x == 17:
+			rq.Remote = []string{"127.0.0.1:5000", "[::1]:5000", "10.0.0.1:40000", "@"}[r.Intn(4)]
+		case x == 18:
+			rq.TLS = true
+			if r.Intn(2) == 0 {
+				rq.Headers = append(rq.Headers, [2]string{"Origin", "https://example.com"})
+			}
+		default:
+			rq.Proto = []string{"HTTP/1.0", "HTTP/2.0"}[r.Intn(2)]
+		}
+	}
 }
 
 // c12GenCrossKind: sources of DIFFERENT kinds and different names in one lookup string, in every order, and the
@@ -2176,6 +2334,9 @@ func c12Shrink(ci any) []any {
 		}
 		if len(rq.Rnd) > 8 && len(rq.Cookies) > 0 {
 			edit(func(n *c12Req) { n.Rnd = nil })
+		}
+		if rq.Host != "" || rq.Remote != "" || rq.TLS || rq.Proto != "" {
+			edit(func(n *c12Req) { n.Host, n.Remote, n.TLS, n.Proto = "", "", false, "" })
 		}
 	}
 	if c.ContextKey != "" {
@@ -2618,7 +2779,7 @@ func c12Tolerable(ci any, implObs, modelObs string) bool {
 func init() {
 	register(&Prop{
 		ID:             "C12",
-		Rule:           "one CSRF middleware per case, built with CSRFWithConfig (TokenLength 0/1..255 with the uint8 boundaries 203..208, 254, 255; 15 header/form/query TokenLookup shapes with 1-3 sources, prefix cut (also as the LAST source), non-canonical header names; 12% param:/cookie: sources on routes with 1-3 or 22 path parameters; 4% ignored/failing sources (no known source: compared with the model only); a third with a custom ErrorHandler that writes its own 418 and returns nil, or returns its own 409 error; a third with cookie options Path/Domain/MaxAge/Secure/HttpOnly/SameSite 0..4; a seventh with a Skipper on the X-Skip header) or with the convenience constructor CSRF() (8%); a quarter of the cases stack other consumers of the random source on the same Echo: RequestID() after or before CSRF, a second CSRF instance (own cookie, context key, lookup, token length), or CSRF + RequestID() + second CSRF (the second instance with its own ContextKey, or — own cookie _csrf_admin / lookup form:admin_csrf, or cookie _csrf2 — on the DEFAULT ContextKey shared with the first instance: the innermost instance owns the key, every instance still validates and publishes its own cookie); a twelfth of the cases have an earlier middleware that presets a value under the ContextKey; registration with e.Use, on the route, on a group, first on the Echo and the rest on a group, or applied once by hand (mw(handler): the only way state of the func(next) part is shared between requests); x 1-4 requests: 27 method spellings (standard, lower/mixed case, padded, custom, empty) x cookie present/empty/absent/look-alike name/duplicated x client token exact (alone, among 3/20/21/25 values, beside wrong tokens at other sources), near miss (prefix, suffix, case change, padding, NUL, bit flip, empty), absent, at a non-configured, look-alike-named or unparsed location, or guessed fresh token; random source = seeded byte stream per request delivered one byte per Read (uniform, mostly rejected bytes, boundary bytes 200..215, whole first buffer rejected, too short for the first or for a later consumer), shared by all consumers of the request; every token a handler found in its context is kept (the very string) and compared again with its Set-Cookie after all later requests; every 60th case runs on the real crypto/rand (oracle only: length, letters, Set-Cookie = context, no token issued twice); CreateExtractors is also called directly on the configured string; lookups with a prefix-cut header source before AND after header sources without one (with the other source's cut-prefix + token presented at the source without one); a quarter of the near misses embed the right token as an element of a longer value (lists with comma / semicolon / space / tab, quotes, doubled); a tenth of the configured cases reach the middleware through the package-level default (CSRF() with the stock default, DefaultCSRFConfig changed, CSRF() again; restored afterwards); a quarter of the requests are answered by a handler that writes nothing, writes through the raw Response.Writer or Unwrap(), uses NoContent, or returns an HTTPError (Set-Cookie is read off what reached the wire); second-instance cookie names that extend the first one (+_site) or are a proper prefix of it; a sixth of the cases have application cookies set before the stack (session, <csrf cookie>_state) and by the handler (after): the sorted names of all Set-Cookie lines on the wire are compared with the model; cookies holding %xx / + escapes with the DECODED value presented as client token; plus 12 (thorough: 150) concurrency cases: 8-16 goroutines x 150-300 (x3) overlapping requests through one stack, each goroutine with its own cookie (every third without: real crypto/rand), every response must carry ITS request's token in Set-Cookie and context, every request must pass (oracle only, sound on every schedule); plus 150 (thorough: 1800) cases with sources of different kinds and names in one lookup string in every order (form before/after query, header in between) where the cookie's token sits under the NAME of one configured source at the KIND of location of another (query name as body field, form name as header, header name in the query; body parsed by net/http in most cases), a third of the single-instance ones with the browser's fetch-metadata headers (Sec-Fetch-Site same-origin / same-site / none / cross-site, Origin, Referer), a third of them with the second instance (query:csrf2) behind a first instance satisfied through its form source and the second token as BODY field csrf2; non-trivial = an unsafe request that passed, or was rejected although cookie and client tokens were present; distinct = distinct model op lines",
+		Rule:           "one CSRF middleware per case, built with CSRFWithConfig (TokenLength 0/1..255 with the uint8 boundaries 203..208, 254, 255; 15 header/form/query TokenLookup shapes with 1-3 sources, prefix cut (also as the LAST source), non-canonical header names; 12% param:/cookie: sources on routes with 1-3 or 22 path parameters; 4% ignored/failing sources (no known source: compared with the model only); a third with a custom ErrorHandler that writes its own 418 and returns nil, or returns its own 409 error; a third with cookie options Path/Domain/MaxAge/Secure/HttpOnly/SameSite 0..4; a seventh with a Skipper on the X-Skip header) or with the convenience constructor CSRF() (8%); a quarter of the cases stack other consumers of the random source on the same Echo: RequestID() after or before CSRF, a second CSRF instance (own cookie, context key, lookup, token length), or CSRF + RequestID() + second CSRF (the second instance with its own ContextKey, or — own cookie _csrf_admin / lookup form:admin_csrf, or cookie _csrf2 — on the DEFAULT ContextKey shared with the first instance: the innermost instance owns the key, every instance still validates and publishes its own cookie); a twelfth of the cases have an earlier middleware that presets a value under the ContextKey; registration with e.Use, on the route, on a group, first on the Echo and the rest on a group, or applied once by hand (mw(handler): the only way state of the func(next) part is shared between requests); x 1-4 requests: 27 method spellings (standard, lower/mixed case, padded, custom, empty) x cookie present/empty/absent/look-alike name/duplicated x client token exact (alone, among 3/20/21/25 values, beside wrong tokens at other sources), near miss (prefix, suffix, case change, padding, NUL, bit flip, empty), absent, at a non-configured, look-alike-named or unparsed location, or guessed fresh token; random source = seeded byte stream per request delivered one byte per Read (uniform, mostly rejected bytes, boundary bytes 200..215, whole first buffer rejected, too short for the first or for a later consumer), shared by all consumers of the request; every token a handler found in its context is kept (the very string) and compared again with its Set-Cookie after all later requests; every 60th case runs on the real crypto/rand (oracle only: length, letters, Set-Cookie = context, no token issued twice); CreateExtractors is also called directly on the configured string; lookups with a prefix-cut header source before AND after header sources without one (with the other source's cut-prefix + token presented at the source without one); a quarter of the near misses embed the right token as an element of a longer value (lists with comma / semicolon / space / tab, quotes, doubled); a tenth of the configured cases reach the middleware through the package-level default (CSRF() with the stock default, DefaultCSRFConfig changed, CSRF() again; restored afterwards); a quarter of the requests are answered by a handler that writes nothing, writes through the raw Response.Writer or Unwrap(), uses NoContent, or returns an HTTPError (Set-Cookie is read off what reached the wire); second-instance cookie names that extend the first one (+_site) or are a proper prefix of it; a sixth of the cases have application cookies set before the stack (session, <csrf cookie>_state) and by the handler (after): the sorted names of all Set-Cookie lines on the wire are compared with the model; cookies holding %xx / + escapes with the DECODED value presented as client token; plus 12 (thorough: 150) concurrency cases: 8-16 goroutines x 150-300 (x3) overlapping requests through one stack, each goroutine with its own cookie (every third without: real crypto/rand), every response must carry ITS request's token in Set-Cookie and context, every request must pass (oracle only, sound on every schedule); plus 150 (thorough: 1800) cases with sources of different kinds and names in one lookup string in every order (form before/after query, header in between) where the cookie's token sits under the NAME of one configured source at the KIND of location of another (query name as body field, form name as header, header name in the query; body parsed by net/http in most cases), a third of the single-instance ones with the browser's fetch-metadata headers (Sec-Fetch-Site same-origin / same-site / none / cross-site, Origin, Referer), a third of them with the second instance (query:csrf2) behind a first instance satisfied through its form source and the second token as BODY field csrf2; (round 8, drawn after everything else) a third of ALL requests additionally carry 1-3 ambient facts about the client or the connection that are no lookup location: fetch metadata (Sec-Fetch-Site/-Mode/-Dest/-User), Origin / Referer (same host, other host, null; a quarter as the coherent picture of a same-origin browser request, scheme and host as the request has them), X-Requested-With, Accept, Authorization / X-Api-Key, X-Forwarded-For/-Proto/-Host / X-Real-Ip / Forwarded, method overrides towards a safe method (X-HTTP-Method-Override, X-Method-Override, X-HTTP-Method, _method in query or body; a quarter of the decorated unsafe requests), Upgrade / Connection, User-Agent of probes and CLI clients, prefetch markers, other frameworks' opt-outs (Csrf-Token: nocheck, X-Csrf-Exempt ...), Content-Type of a body-less request (json / text / octet-stream), extra query parameters / body fields / cookies of the application (csrf_exempt, debug, session ...), Host localhost / 127.0.0.1 / [::1], a loopback or private RemoteAddr, Request.TLS set, HTTP/1.0 / HTTP/2.0; non-trivial = an unsafe request that passed, or was rejected although cookie and client tokens were present; distinct = distinct model op lines",
 		New:            func() any { return &c12Case{} },
 		Gen:            c12Gen,
 		Run:            c12Run,
